@@ -71,7 +71,7 @@ def run(ctx):
     nontrivial = set()
     n_eval = 0
     samples = []
-    for _ in range(ctx.n(45, 700)):
+    for _ in range(ctx.n(100, 700)):
         g, inputs, run_map, md = build_shape(rng)
         base = {"runner": "async", "inputs": inputs, "error_handling": "continue", "hold": True, "watchdog": 30, "fresh_rank": True}
         if run_map:
